@@ -27,10 +27,14 @@ impl Tier {
     }
     /// Case-count multiplier of the thorough tier.
     pub fn scale(self, quick: u32, factor: u32) -> u32 {
-        match self {
+        // VCHECK_CASES_DIV shrinks the workload for the (slow) coverage-instrumented build used by
+        // tools/coverage.sh; it is never set by the registered commands.
+        let div = std::env::var("VCHECK_CASES_DIV").ok().and_then(|s| s.parse::<u32>().ok()).unwrap_or(1).max(1);
+        let n = match self {
             Tier::Quick => quick,
             Tier::Thorough => quick.saturating_mul(factor),
-        }
+        };
+        (n / div).max(64)
     }
 }
 
